@@ -288,7 +288,7 @@ def normalize_url(
         hostname = decode_punycode_hostname(hostname)
 
     # Dropping :80 & :443
-    if port == 80 or port == 443:
+    if (port == 80 and scheme == "http") or (port == 443 and scheme == "https"):
         port = None
 
     # Normalizing the path
